@@ -214,5 +214,5 @@ def simplify(case):
 
 def run_shard(ctx):
     quick = ctx.tier == "quick"
-    ctx.drive("labels", label_cases(ctx.tier), check_case, ctx.budget(1600, 30000))
-    ctx.drive_machine("queries", make_machine(ctx.col, "queries", ctx.tier), ctx.budget(800, 12000), steps=25 if quick else 50)
+    ctx.drive("labels", label_cases(ctx.tier), check_case, ctx.budget(5000, 40000))
+    ctx.drive_machine("queries", make_machine(ctx.col, "queries", ctx.tier), ctx.budget(2400, 16000), steps=25 if quick else 50)
